@@ -57,7 +57,7 @@ structure TFrame where
     observations of every rule invocation (`start` = entered; `success` / `failure` / `unwind` = left with
     result 1 / 0 / 2). -/
 def treeStep (cls : Nat → Cls) (stk : List TFrame) : Ev → Option (List TFrame)
-  | .enter i _ _ c =>
+  | .enter i _ _ c _ =>
     match cls i with
     | .leaf => some stk
     | _ => some (⟨c, []⟩ :: stk)                       -- state.emplace_back(); start< Rule >( in )
